@@ -11,26 +11,29 @@ from tools.lib import core
 PROP = 'C13'
 
 MANIFEST = dict(
-    technique='Coq proof (structural induction over nested maps, source lists, builder op sequences and process histories) about a '
-              'model of deep_update/LanguageConfig/LanguageContextBuilder/CLI whose leaf rule, deep_update body, cpp option validation, '
-              'cpp option groups and CLI wiring are re-translated from /repo on every run; extracted-model vs. implementation '
-              'correspondence (values, aliasing, several builders in one process)',
-    text='Theorems in coq/theories/Properties/C13.v: the model solves the recursion equation translated from deep_update; per-key merge '
-         'law for every shape; closed form of lookup after merging any list of sources (last explicit wins, a default never displaces '
-         'an explicit value, a later default replaces an earlier default); untouched keys kept; deep key-wise union at every depth; '
-         'create() depends only on (ordered files, final override map, last language) for every interleaving of builder calls; CLI '
-         'defaults (DefaultValue(False)) never displace file values, explicit overrides win; the translated cpp '
-         '_validate_language_options sets the group selected by std as a unit; with the copy function the code uses now '
-         '(copy.deepcopy, regenerated flag) the merged configuration never reaches a dict object of a source document; a context is '
-         'unaffected by any calls on other builders; for a re-used builder the live statement follows the regenerated shape of create(): '
-         'refuted while the context shares the builder config (known finding F-CFG-REUSE), full stability once create() hands out a deep copy.',
-    note='Trusted: Coq kernel; translator tools/translators/gen_c13.py (Python ast -> Gallina for the leaf rule and deep_update, '
-         'shape-pinned translation of cpp _validate_language_options and _create_language_context, yaml tables); extraction + OCaml '
-         'driver; hand models of LanguageConfig/LanguageContextBuilder/Language.__init__ (validated by correspondence, not verified). '
-         'Partial: the closed form is stated for paths without leaf/mapping shape conflict (conflicts are covered by the per-key law); '
-         '"sources unmodified" is proved on an ownership abstraction (no dict object of a source is reachable from the target), the '
-         'heap model that shows actual mutation is executable and tied by correspondence only; target-language inference from an '
-         '`extension` override and section-name validation are not modelled; get_config_value* string/bool coercions are not part of C13.',
+    technique='Coq proof (structural induction over nested maps, source lists, builder op sequences; separation invariant over a heap of '
+              'LanguageConfig objects) about a model whose leaf rule, deep_update body, LanguageConfig getters, cpp option validation, option '
+              'groups, create() shape and CLI wiring are re-translated from /repo on every run (40 further functions shape-pinned); '
+              'extracted-model vs. implementation correspondence (values, aliasing, whole contexts of several builders in one process)',
+    text='Theorems in coq/theories/Properties/C13.v: the model solves the recursion equation translated from deep_update; per-key merge law for '
+         'every shape; closed form of lookup after merging any list of sources; untouched keys kept; deep key-wise union; END-TO-END chain: '
+         'for every sequence of builder calls create() = deep_update folded over built-in, file_1..file_n, override map, hence one precedence '
+         '(fold of pick: later explicit wins, DefaultValue never displaces) for every key path; create() depends only on (ordered files, '
+         'final overrides, language); CLI defaults never displace file values; EFFECTIVE option (what get_option/templates see after '
+         'Language.__init__) = merged value except the keys of the cpp group selected by std (group value wins over every source) and py '
+         'enable_serialization_asserts; translated getters: raw getter, get_config_value, as_bool truth table, as_dict, as_list incl. '
+         'default/KeyError/TypeError; sources never reached with the regenerated copy flag; LanguageConfig objects have identity: obligation '
+         'create_detaches_config = true (reflexivity on the regenerated fact) + separation invariant + non-interference for every process '
+         'history (only a context\'s own get_supported_languages() changes what it reports).',
+    note='Trusted: Coq kernel; translator tools/translators/gen_c13.py (ast -> Gallina for the leaf rule, deep_update, the five getters; '
+         'shape-directed translation of cpp _validate_language_options, create()/_detached_builder, _create_language_context; pins; yaml '
+         'tables); extraction + OCaml driver; hand models of LanguageConfig.update*, LanguageContextBuilder, Language.__init__ (pinned + '
+         'validated by correspondence). Partial: closed form for paths without leaf/mapping conflict (conflicts: per-key law); "sources '
+         'unmodified" on an ownership abstraction (lists are atoms: a list object is stored by reference, excluded); a cpp std shorthand '
+         'selected by a LOWER-precedence source than an explicit value of one of its group keys still overwrites that value (documented '
+         '"as a unit" behaviour, stated as the exception of c13_effective_option; see design_notes/C13.md); target-language inference from '
+         '`extension`, section-name validation and experimental-language filtering are not modelled. History/C13_history.v keeps the '
+         'refutations for code no longer in /repo (shallow copy, shared LanguageConfig).',
     design='§5 C13')
 
 KEYS = ['a', 'b', 'c', 'x', 'y', 'options', 'std']
@@ -53,7 +56,7 @@ def canon(v):
         return {k: canon(x) for k, x in v['N']}
     d, a = v['L']
     if isinstance(a, dict):
-        a = ('O', a['O'])
+        a = ('O', a['O']) if 'O' in a else ('Li', a['Li'])
     elif isinstance(a, bool):
         a = ('B', a)
     return ('L', bool(d), a)
@@ -65,6 +68,8 @@ class Codec:
     def __init__(self):
         self.opaque: typing.Dict[str, int] = {}
         self.back: typing.Dict[int, str] = {}
+        self.lists: typing.Dict[str, int] = {'[]': 0}     # AList ids; 0 is the empty list
+        self.lback: typing.Dict[int, str] = {0: '[]'}
 
     @staticmethod
     def s(x: str) -> str:
@@ -83,6 +88,11 @@ class Codec:
             return 'i%d' % a
         if isinstance(a, str):
             return 's' + self.s(a)
+        if 'Li' in a:
+            if a['Li'] not in self.lists:
+                self.lists[a['Li']] = len(self.lists)
+                self.lback[self.lists[a['Li']]] = a['Li']
+            return 'l%d' % self.lists[a['Li']]
         r = a['O']
         if r not in self.opaque:
             self.opaque[r] = len(self.opaque) + 1
@@ -118,6 +128,8 @@ class Codec:
             at = int(a[1:])
         elif a[0] == 's':
             at = self.us(a[1:])
+        elif a[0] == 'l':
+            at = ('Li', self.lback[int(a[1:])])
         else:
             at = ('O', self.back[int(a[1:])])
         return ('L', d, at), i + 1
@@ -173,7 +185,8 @@ def gen_atom(rng):
         return rng.random() < 0.5
     if r == 8:
         return None
-    return {'O': json.dumps(rng.choice([[1, 2], [], 1.5, ['a', {'k': 1}]]), sort_keys=True)}
+    x = rng.choice([[1, 2], [], 1.5, ['a', {'k': 1}]])
+    return {'Li' if isinstance(x, list) else 'O': json.dumps(x, sort_keys=True)}
 
 
 def gen_val(rng, depth: int, p_default: float):
@@ -387,7 +400,7 @@ def gen_cli_cases(rng, count: int):
 
 
 COERCE_POOL = [True, False, None, 0, 1, -7, 10, 305, '', '0', 'false', 'False', 'FALSE', 'fAlSe', 'true', 'True', 'no', 'yes', '1', ' 0', '0 ',
-               'off', 'ÀB', 'None', {'O': '[1, 2]'}, {'O': '1.5'}]
+               'off', 'ÀB', 'None', {'Li': '[1, 2]'}, {'Li': '[]'}, {'Li': '["a"]'}, {'O': '1.5'}]
 
 
 def gen_coerce_cases(rng, count: int):
@@ -407,6 +420,7 @@ def gen_coerce_cases(rng, count: int):
                 qs.append([sec, k, 'v', rng.choice([None, '', 'dflt'])])
                 qs.append([sec, k, 'b', rng.random() < 0.5])
                 qs.append([sec, k, 'd', rng.choice([None, N([]), N([('z', L(1))])])])
+                qs.append([sec, k, 'l', rng.choice([None, L({'Li': '[]'}), L({'Li': '[9]'})])])
         cases.append({'kind': 'coerce', 'sections': secs, 'queries': qs})
     return cases
 
@@ -422,7 +436,13 @@ def coerce_oracle(sections_v, q):
         if ent is None:
             return ['ok', canon(d)] if d is not None else ['keyerror']
         return ['ok', canon(d)] if d is not None else ['typeerror']
-    if isinstance(ent, dict) or (ent is not None and isinstance(ent[2], tuple) and ent[2][0] == 'O'):
+    if kind == 'l':
+        if ent is not None and not isinstance(ent, dict) and isinstance(ent[2], tuple) and ent[2][0] == 'Li':
+            return ['ok', ('L', False, ent[2])]
+        if ent is None:
+            return ['ok', canon(d)] if d is not None else ['keyerror']
+        return ['ok', canon(d)] if d is not None else ['typeerror']
+    if isinstance(ent, dict) or (ent is not None and isinstance(ent[2], tuple) and ent[2][0] in ('O', 'Li')):
         return None
     if ent is None:
         if kind == 'b':
@@ -860,7 +880,10 @@ def main(chk: core.Check, replay: typing.Optional[str] = None) -> int:
     for c in coerce_cases:
         sv = codec.enc(c['sections'])
         for sec, k, kind, d in c['queries']:
-            ds = ('-' if d is None else codec.s(d)) if kind == 'v' else (('t' if d else 'f') if kind == 'b' else ('-' if d is None else codec.enc(d)))
+            if kind == 'l':
+                ds = '-' if d is None else codec.atom(d['L'][1])[1:]
+            else:
+                ds = ('-' if d is None else codec.s(d)) if kind == 'v' else (('t' if d else 'f') if kind == 'b' else ('-' if d is None else codec.enc(d)))
             c_lines.append('G %s %s %s %s %s' % (sv, codec.s(sec), codec.s(k), kind, ds))
     c_model = core.run([exe], input='\n'.join(c_lines) + '\n', timeout=600).stdout.splitlines() if (ok_model and c_lines) else None
     qi = 0
@@ -868,7 +891,7 @@ def main(chk: core.Check, replay: typing.Optional[str] = None) -> int:
     for c, o in zip(coerce_cases, c_impl):
         for j, q in enumerate(c['queries']):
             got = o['results'][j] if 'results' in o else ['harness error', o.get('err')]
-            if got[0] == 'ok' and q[2] == 'd':
+            if got[0] == 'ok' and q[2] in ('d', 'l'):
                 got = ['ok', canon(got[1])]
             stats['getter_queries'] += 1
             want = coerce_oracle(c['sections'], q)
@@ -884,6 +907,8 @@ def main(chk: core.Check, replay: typing.Optional[str] = None) -> int:
                         mv = ['ok', codec.us(ml[2][1:])]
                     elif q[2] == 'b':
                         mv = ['ok', ml[2] == 't']
+                    elif q[2] == 'l':
+                        mv = ['ok', ('L', False, ('Li', codec.lback[int(ml[2][1:])]))]
                     else:
                         mv = ['ok', codec.dec_tokens(ml, 2)[0]]
                     if mv != got:
